@@ -734,6 +734,68 @@ pub fn same_key_family() -> Vec<String> {
     out
 }
 
+/// One fragment reached twice in a selection set - directly, through another fragment, inside inline fragments - with a
+/// condition (variable or literal) on either occurrence, in both orders, under a concrete and an abstract parent.
+pub fn fragment_reuse_family() -> Vec<String> {
+    let conds = ["", " @include(if: $b1)", " @skip(if: $b1)", " @include(if: false)", " @skip(if: true)", " @skip(if: $b2)"];
+    let occurrences = ["...A{c}", "...B{c}", "...{c} { ...A }", "... on User{c} { ...B }", "...C{c}", "... on Named { ...A{c} }"];
+    let frags = "fragment A on User { id name }\nfragment B on User { age ...A }\nfragment C on Node { id ... on User { ...A } }\n";
+    let mut occ = vec![];
+    for o in occurrences {
+        for c in conds {
+            occ.push(o.replace("{c}", c));
+        }
+    }
+    let mut out = vec![];
+    for parent in ["u", "node(id: \"1\")"] {
+        for a in &occ {
+            for b in &occ {
+                let body = format!("{parent} {{ {a} {b} }}");
+                let mut vars = vec![];
+                for v in ["$b1", "$b2"] {
+                    if body.contains(v) {
+                        vars.push(format!("{v}: Boolean!"));
+                    }
+                }
+                let vd = if vars.is_empty() { String::new() } else { format!("({})", vars.join(", ")) };
+                // only the fragments the operation reaches (an unused fragment makes the document invalid)
+                let _ = frags;
+                let mut fr = String::from("fragment A on User { id name }\n");
+                if body.contains("...B") {
+                    fr.push_str("fragment B on User { age ...A }\n");
+                }
+                if body.contains("...C") {
+                    fr.push_str("fragment C on Node { id ... on User { ...A } }\n");
+                }
+                out.push(format!("query Q{vd} {{ {body} }}\n{fr}"));
+            }
+        }
+    }
+    out
+}
+
+/// Type conditions of every kind under every abstract (and one concrete) parent, with `__typename` selected so that the
+/// branches of the emitted union can be told apart: single conditions (inline and named) and all pairs.
+pub fn type_condition_family() -> Vec<String> {
+    let parents = ["node(id: \"1\")", "named", "owned", "res", "u", "results"];
+    let conds = [("Node", "id"), ("Named", "name"), ("Owned", "tags"), ("Result", "__typename"), ("User", "age"), ("Post", "title"), ("Bot", "model"), ("Issue", "n"), ("Repo", "stars"), ("Team", "size")];
+    let mut out = vec![];
+    for p in parents {
+        for (x, f) in conds {
+            out.push(format!("query Q {{ {p} {{ __typename ... on {x} {{ {f} }} }} }}\n"));
+            out.push(format!("query Q {{ {p} {{ __typename ...F }} }}\nfragment F on {x} {{ {f} }}\n"));
+            for (y, g) in conds {
+                if x < y {
+                    out.push(format!("query Q {{ {p} {{ __typename ... on {x} {{ {f} }} ... on {y} {{ {g} }} }} }}\n"));
+                    // nested: a condition inside a condition
+                    out.push(format!("query Q {{ {p} {{ __typename ... on {x} {{ {f} ... on {y} {{ {g} }} }} }} }}\n"));
+                }
+            }
+        }
+    }
+    out
+}
+
 pub fn run(args: &RunArgs, prop: &str) -> i32 {
     let rep = Reporter::new(prop, &args.tier);
     crate::util::install_hook();
@@ -783,7 +845,12 @@ pub fn run(args: &RunArgs, prop: &str) -> i32 {
     // the same-response-key families: every pair of selections of one object field (children drawn
     // from two leaves x four conditions), and every pair of selections of one leaf under the wrappers
     // {plain, typed inline fragment, untyped inline fragment} x four conditions
-    let fam = same_key_family();
+    let mut fam = same_key_family();
+    let same_key_n = fam.len();
+    // and the fragment-reuse family: one fragment reached twice, either occurrence conditional
+    fam.extend(fragment_reuse_family());
+    let reuse_n = fam.len() - same_key_n;
+    fam.extend(type_condition_family());
     let fam_checked = AtomicU64::new(0);
     crate::explore::par_for(fam.len(), args.threads, |i| {
         let text = &fam[i];
@@ -818,7 +885,9 @@ pub fn run(args: &RunArgs, prop: &str) -> i32 {
         "bounds": {"document_deviations": dev, "data_deviations": data_dev, "selection_depth": 2},
         "explorer": stats_json(&stats),
         "documents_checked": checked,
-        "same_key_family_documents": fam.len(),
+        "same_key_family_documents": same_key_n,
+        "fragment_reuse_family_documents": reuse_n,
+        "type_condition_family_documents": fam.len() - same_key_n - reuse_n,
         "same_key_family_documents_checked": fam_checked.load(Ordering::Relaxed),
         "skipped_not_spec_valid": cnt.skipped_invalid.load(Ordering::Relaxed),
         "skipped_rejected_by_check(C04's business)": cnt.skipped_rejected.load(Ordering::Relaxed),
